@@ -186,8 +186,10 @@ func dethunkMapWithBreadthFirstTraversal(finalResults map[string]interface{}) {
 func dethunkMapBreadthFirst(m map[string]interface{}, dethunkQueue *dethunkQueue) {
 	for _, k := range sortedResultKeys(m) {
 		v := m[k]
-		if f, ok := v.(func() interface{}); ok {
-			m[k] = f()
+		for f, ok := v.(func() interface{}); ok; f, ok = v.(func() interface{}) {
+			// a deferred value may itself yield a deferred value
+			v = f()
+			m[k] = v
 		}
 		switch val := m[k].(type) {
 		case map[string]interface{}:
@@ -200,8 +202,9 @@ func dethunkMapBreadthFirst(m map[string]interface{}, dethunkQueue *dethunkQueue
 
 func dethunkListBreadthFirst(list []interface{}, dethunkQueue *dethunkQueue) {
 	for i, v := range list {
-		if f, ok := v.(func() interface{}); ok {
-			list[i] = f()
+		for f, ok := v.(func() interface{}); ok; f, ok = v.(func() interface{}) {
+			v = f()
+			list[i] = v
 		}
 		switch val := list[i].(type) {
 		case map[string]interface{}:
@@ -231,8 +234,10 @@ func sortedResultKeys(m map[string]interface{}) []string {
 func dethunkMapDepthFirst(m map[string]interface{}) {
 	for _, k := range sortedResultKeys(m) {
 		v := m[k]
-		if f, ok := v.(func() interface{}); ok {
-			m[k] = f()
+		for f, ok := v.(func() interface{}); ok; f, ok = v.(func() interface{}) {
+			// a deferred value may itself yield a deferred value
+			v = f()
+			m[k] = v
 		}
 		switch val := m[k].(type) {
 		case map[string]interface{}:
@@ -246,7 +251,7 @@ func dethunkMapDepthFirst(m map[string]interface{}) {
 // dethunkValueDepthFirst forces a single completed value (and everything
 // nested in it) depth-first.
 func dethunkValueDepthFirst(v interface{}) interface{} {
-	if f, ok := v.(func() interface{}); ok {
+	for f, ok := v.(func() interface{}); ok; f, ok = v.(func() interface{}) {
 		v = f()
 	}
 	switch val := v.(type) {
@@ -260,8 +265,9 @@ func dethunkValueDepthFirst(v interface{}) interface{} {
 
 func dethunkListDepthFirst(list []interface{}) {
 	for i, v := range list {
-		if f, ok := v.(func() interface{}); ok {
-			list[i] = f()
+		for f, ok := v.(func() interface{}); ok; f, ok = v.(func() interface{}) {
+			v = f()
+			list[i] = v
 		}
 		switch val := list[i].(type) {
 		case map[string]interface{}:
